@@ -95,8 +95,12 @@ class Automaton:
             if SEV[st] < need:
                 self.v(
                     "R7",
-                    f"phase {ph} finished as {st} but contains {'an error' if need == 2 else 'a failure'}",
+                    f"phase {ph} finished as {st} but contains {'an errored' if need == 2 else 'a failed'} scenario/suite/error event",
                     what="phase_status",
+                    phase=ph,
+                    status=st,
+                    worst="error" if need == 2 else "failure",
+                    nonfatal_event=self.phase_nonfatal,
                 )
         self.closed_phases.add(ph)
         self.open_phase = None
@@ -125,9 +129,8 @@ class Automaton:
         if still:
             self.unclosed_at_suite_end.append((self.i, len(still)))
         st = ev.status.value
-        if st != "interrupted" and SEV[st] < self.suite_max_scn:
-            self.v("R7", f"suite finished as {st} but contains a worse scenario", what="suite_status")
-        self.phase_max_suite = max(self.phase_max_suite, SEV[st])
+        # the statement orders a *phase* against its worst scenario; suites are only carried along
+        self.phase_max_suite = max(self.phase_max_suite, SEV[st], self.suite_max_scn)
         self.open_suite = None
 
     # -- scenarios ------------------------------------------------------------------------------
@@ -224,6 +227,9 @@ def judge(ctx, status: str) -> tuple[list[dict], Automaton]:
         sig["workers_ge2"] = int(cfg.get("workers", 1)) >= 2
         if ctx.ctrl_c_fired is not None:
             sig["cause"] = "ctrl_c"
+            # which engine `except KeyboardInterrupt` received it (not where exactly it landed: the finding is
+            # about what each handler closes, and file:function stays stable under small edits)
+            sig["handler"] = ctx.ctrl_c_fired.get("handler")
         elif ctx.stop_called_seq is not None:
             sig["cause"] = "consumer_stop"
         elif cfg.get("max_failures") is not None and any(
